@@ -1,8 +1,11 @@
 //! vfront: checks of the asn1rs front end (tokenizer, parser, resolver, model conversions, code generators).
 mod c07;
+mod c08;
 mod c12;
 mod c13;
 mod c15;
+mod c16a;
+pub mod expansion;
 pub mod front;
 
 fn main() {
@@ -11,9 +14,11 @@ fn main() {
     let ctx = vcore::harness::Ctx::from_args(&args);
     let code = match ctx.prop.as_str() {
         "C07" => c07::run(ctx),
+        "C08" => c08::run(ctx),
         "C12" => c12::run(ctx),
         "C13" => c13::run(ctx),
         "C15" => c15::run(ctx),
+        "C16" => c16a::run(ctx),
         other => {
             eprintln!("vfront does not serve {other}");
             2
